@@ -2,6 +2,7 @@ package main
 
 import (
 	"fmt"
+	"strings"
 	"sync"
 	"sync/atomic"
 	"time"
@@ -13,8 +14,10 @@ import (
 //
 // While a pubsub scenario runs, every goroutine's sequence of Pub/Sub lock events ("TL","TU","TRL","TRU" on the table lock,
 // "CL","CU" on a channel object's lock), conns-map accesses ("cr","cw","cd") and accesses to the table itself ("get","set","del" on
-// the ConcurrentMap ChanMap.item) is fed, as it happens, to the OPERATION AUTOMATON of the Lean model lean/RedisGoModel/Conc/PubSubConc.lean
-// (one automaton state per program counter of the model; the events are the labels of the model's steps):
+// the ConcurrentMap ChanMap.item) is fed, as it happens, to the OPERATION AUTOMATON of the Lean model: psStep below is a transcription of
+// PSC.TA.step (lean/RedisGoModel/Conc/PubSubTrace.lean; PSC.thread_trace_accepted proves that every thread of the model
+// lean/RedisGoModel/Conc/PubSubConc.lean is accepted by it; the events are the labels of the model's steps, PSC.evOf). The small scenarios keep
+// their whole traces, which the Lean automaton itself judges again through the compiled driver (engine PST):
 //
 //   Subscribe   s0 -TL-> s1 -get[,get,set]-> s2 -CL-> s3 -cr[,cw]-> s4 -CU-> s5 -TU-> idle
 //   UnSubscribe u0 -TL-> u1 -get-> (absent: u5) u2 -CL-> u3 -cd-> u3d -[del]-> u4 -CU-> u5 -TU-> idle
@@ -58,6 +61,7 @@ type psThread struct {
 	st   psState
 	key  string
 	ch   *memdb.Chan
+	evs  []string      // the whole event sequence (kinds only), kept when the recording asks for it: shipped to the Lean automaton
 	n    int           // events seen
 	last [12][2]string // ring of the last few events (kind, key), for the report
 }
@@ -235,6 +239,7 @@ func psStep(t *psThread, kind string, ch *memdb.Chan, key string) string {
 // cleaning up) are ignored: every event carries its table.
 type psRun struct {
 	db      *memdb.MemDb
+	keep    bool     // keep every goroutine's whole event sequence (small scenarios): judged a second time by PSC.TA.ok in the Lean driver
 	threads sync.Map // goid -> *psThread
 	bad     atomic.Value
 	events  atomic.Int64
@@ -257,6 +262,9 @@ func psFeed(run *psRun, kind string, ch *memdb.Chan, key string) {
 	t := v.(*psThread)
 	run.events.Add(1)
 	t.mu.Lock()
+	if run.keep {
+		t.evs = append(t.evs, kind)
+	}
 	why := psStep(t, kind, ch, key)
 	st := t.st
 	var last string
@@ -298,8 +306,8 @@ func psMapHook(kind string, cm *memdb.ConcurrentMap, key string) {
 }
 
 // psBegin starts recording for one scenario round (db: the database whose SubChans table is observed)
-func psBegin(db *memdb.MemDb) {
-	psCur.Store(&psRun{db: db})
+func psBegin(db *memdb.MemDb, keep bool) {
+	psCur.Store(&psRun{db: db, keep: keep})
 	psOn.Store(true)
 }
 
@@ -337,6 +345,25 @@ func psEnd() (int64, string) {
 		return run.events.Load(), b.(string)
 	}
 	return run.events.Load(), why
+}
+
+// psTraces returns the kept event sequences, one string per goroutine
+func psTraces() map[string]string {
+	out := map[string]string{}
+	run := psCur.Load()
+	if run == nil || !run.keep {
+		return out
+	}
+	run.threads.Range(func(k, v interface{}) bool {
+		t := v.(*psThread)
+		t.mu.Lock()
+		if len(t.evs) > 0 {
+			out[fmt.Sprint(k)] = strings.Join(t.evs, " ")
+		}
+		t.mu.Unlock()
+		return true
+	})
+	return out
 }
 
 // psUnvisited lists the automaton states no goroutine has been in during the current recording
